@@ -82,8 +82,35 @@ def run(mid, props):
     return res
 
 
+def sweep(ids):
+    """run every seeded change against its own property's quick check and record the outcome in meta.json"""
+    summary = {}
+    for mid in ids:
+        prop = mid.split("-")[0]
+        r = run(mid, [prop])[prop]
+        lines = r["lines"]
+        if r["exit"] == 1 and any(l.startswith("VIOLATION") and not l.endswith("no-failing-input-found") for l in lines):
+            result = "exit 1, VIOLATION with failing-input replay"
+        elif r["exit"] == 1:
+            result = "exit 1, VIOLATION no-failing-input-found (tie broken, no failing input located)"
+        else:
+            result = f"exit {r['exit']}: NOT DETECTED ({lines[:1]})"
+        mp = os.path.join(VERIF, "seeded", mid, "meta.json")
+        meta = json.load(open(mp))
+        meta["breaks_property"] = prop
+        meta["checked_with"] = {"command": f"git -C /repo apply seeded/{mid}/patch.diff && ./check {prop} ; git -C /repo checkout -- .",
+                                "result": result}
+        json.dump(meta, open(mp, "w"), indent=1)
+        summary[mid] = result
+        print(mid, result, flush=True)
+    return summary
+
+
 if __name__ == "__main__":
-    if sys.argv[1] == "confirm":
+    if sys.argv[1] == "sweep":
+        ids = sys.argv[2:] or sorted(os.listdir(os.path.join(VERIF, "seeded")))
+        sweep(ids)
+    elif sys.argv[1] == "confirm":
         print(json.dumps(confirm(sys.argv[2], sys.argv[3]), indent=1))
     elif sys.argv[1] == "run":
         mid = sys.argv[2]
